@@ -93,3 +93,24 @@ Fixpoint join_space (l:list string) : string :=
   | s :: r => match r with [] => s | _ => String.append s (String " " (join_space r)) end
   end.
 Definition print_sshape (l:list saxis) : res string := do ss <- print_axes l; Ok (join_space ss).
+
+(* ---- how Python's operators build the trees: operands are operable axes, computed axes, groups or plain ints;
+        ConstantAxis and AnonymousAxis take no part in arithmetic (_as_operand raises TypeError; where the left operand
+        has no operator method at all Python raises the TypeError itself) ---- *)
+Inductive operand :=
+| OInt (z:Z)                   (* a plain Python int *)
+| OSym (s:sym)                 (* LiteralAxis / VariableAxis / ComputedAxis / Group *)
+| OConst (x:string) (v:Z)      (* ConstantAxis *)
+| OAnon                        (* AnonymousAxis(...) *)
+| OStar (x:string).            (* AnonymousAxis("x") *)
+Definition as_operand (a:operand) : res sym :=
+  match a with OInt z => Ok (SLit z) | OSym s => Ok s | _ => Err TypeErr end.
+Definition operable (a:operand) : bool := match a with OInt _ | OSym _ => true | _ => false end.
+(* l <op> r for + - * // ** (either operand order: the reflected methods put the operands back in source order) *)
+Definition mk_bin (o:op) (l r:operand) : res sym :=
+  match l, r with
+  | OInt _, OInt _ => Err Unmodelled          (* two ints: Python's own arithmetic, no axis involved *)
+  | _, _ => do a <- as_operand l; do b <- as_operand r; Ok (SBin o a b)
+  end.
+Definition mk_isqrt (a:operand) : res sym := do s <- as_operand a; Ok (SIsqrt s).
+Definition mk_fun2 (o:op) (a b:operand) : res sym := do x <- as_operand a; do y <- as_operand b; Ok (SFun2 o x y).
